@@ -1,13 +1,18 @@
 """C07 - running the real single-flight code (cashews/decorators/locked.py `thunder_protection`, and the
 `protected=True` glue of cashews/wrapper/decorators.py) under the gate scheduler.
 
-A *case* is  {"variant": str, "callers": [[cid, k, n, kind, val(, arg)], ...], "schedule": [entry, ...]}
+A *case* is  {"variant": str, "callers": [[cid, k, n, kind, val(, arg)], ...], "schedule": [entry, ...](, "ttl": ticks)}
   caller cid calls f(k) - or, for the two-parameter variants, f(arg, k) / f(k=k, s=arg) (even caller ids use the
   keyword spelling); if that call starts an execution, the wrapped body passes n scripted suspension points and then
-  returns val (kind "r"), raises exception class number val (kind "e"), or ENDS CANCELLED (kind "k": the body itself
+  returns val (kind "r"), raises the exception of shape val carrying a payload derived from the execution's id (kind
+  "e"; harness/sfexc.py: plain classes and classes with keyword-only / multi-argument / message-formatting
+  constructors, state in attributes or slots, an explicit cause, notes), or ENDS CANCELLED (kind "k": the body itself
   raises CancelledError - val 0: `raise`, 1: an inner future it awaits is cancelled underneath it, 2: a child task it
   awaits is cancelled; nobody cancels a caller and nobody cancels the execution task from outside).
-  schedule entries: see harness/sfsched.py.
+  schedule entries: see harness/sfsched.py - among them ("tick", d): d ticks of virtual time pass while the bodies
+  stay suspended.  "ttl" is the decorator's ttl in ticks (a multiple of 8 = whole seconds; default 8192 = 1024 s, far
+  longer than any run); cases with time steps use ttls of 1-2 s, so an execution can be in flight for less than, exactly,
+  or longer than the ttl when the next caller arrives, and a stored result can expire between two calls.
 
 The KEY of a call (`key_id`) is the cache key its arguments render to, as a small number - not the argument list:
   one-parameter variants, and two-parameter variants whose template is "sf:{k}" ("omit": the parameter `s` is left out
@@ -27,7 +32,8 @@ import gc
 import logging
 from dataclasses import dataclass, field
 
-from . import vtime
+from . import sfexc, vtime
+from .core import HarnessError
 from .sched import TASK_ID
 from .sfsched import SfSched
 
@@ -63,23 +69,47 @@ class Session:
 
     def __init__(self, v):
         self.v = v
-TTL = 1024          # seconds; no run lets more than a few ticks pass
-INNER_TTL = 512
+TTL = 1024          # seconds: the default ttl, far longer than any run
+INNER_TTL = 512     # early_ttl / soft_ttl of the default configuration
+TICKS_PER_S = 8
+DEFAULT_TTL_TICKS = TTL * TICKS_PER_S
+# cases with time steps: early_ttl / soft_ttl far beyond anything a run can reach, so that `early` never starts its
+# background recalculation and `soft` never re-runs the body for a value that is still stored - those are the TTL
+# behaviours of C02/C14, not single-flight; here a stored value is a hit exactly as long as the backend holds it
+FAR_TTL = 4096
+MAX_RUN_TICKS = 2048
 
 
-class SfErr0(Exception):
-    pass
+def ttl_ticks(case) -> int:
+    t = int(case.get("ttl", DEFAULT_TTL_TICKS))
+    if t <= 0 or t % TICKS_PER_S:
+        raise HarnessError(f"C07 case: ttl must be a positive multiple of {TICKS_PER_S} ticks, not {t}")
+    return t
 
 
-class SfErr1(Exception):
-    pass
+class SfLoop(vtime.VLoop):
+    """the virtual loop without the sleep(0)-spin rule (64 busy iterations = one tick): the gate scheduler keeps the loop
+    busy all the time, and in this check time must pass exactly when the schedule says so"""
+    SPIN = 1 << 62
 
 
-class SfErr2(Exception):
-    pass
-
-
-EXC = [SfErr0, SfErr1, SfErr2]
+def _vrun(coro_fn):
+    """vtime.run on an SfLoop"""
+    vtime.CLOCK.reset()
+    loop = SfLoop()
+    asyncio.set_event_loop(loop)
+    try:
+        return loop.run_until_complete(coro_fn())
+    finally:
+        try:
+            pending = [t for t in asyncio.all_tasks(loop) if not t.done()]
+            for t in pending:
+                t.cancel()
+            if pending:
+                loop.run_until_complete(asyncio.gather(*pending, return_exceptions=True))
+        finally:
+            asyncio.set_event_loop(None)
+            loop.close()
 # an execution whose waiters were all cancelled and that then raises has nobody to hand its exception to; asyncio logs
 # "Task exception was never retrieved" when such a task is collected.  Expected here, and not an observable of C07.
 logging.getLogger("asyncio").setLevel(logging.CRITICAL)
@@ -101,21 +131,25 @@ class Run:
     leftover: int = 0
     frozen: list = field(default_factory=list)
     busy_waits: int = 0
+    raised: dict = field(default_factory=dict)       # observation -> "E<shape>.<x>": what each body raised
+    raised_obs: dict = field(default_factory=dict)   # x -> observation (for reports)
+    received_obs: dict = field(default_factory=dict)  # caller -> observation of the exception it ended with
 
 
-def outcome_code(task: asyncio.Task, own_cancel: bool = True) -> str:
+def outcome_code(task: asyncio.Task, own_cancel: bool = True, raised=None, received=None, cid=None) -> str:
     """C: the caller itself was cancelled (by the schedule);  K: it ended with CancelledError without having been
-    cancelled - what the await of an execution that ended cancelled delivers"""
+    cancelled - what the await of an execution that ended cancelled delivers;  E<shape>.<x>: it ended with an exception
+    that is, in every observable respect (sfexc.observe), the one the body of execution x raised"""
     if not task.done():
         return "W"
     if task.cancelled():
         return "C" if own_cancel else "K"
     exc = task.exception()
     if exc is not None:
-        for i, cls in enumerate(EXC):
-            if type(exc) is cls:
-                return f"E{i}"
-        return "X:" + type(exc).__name__
+        obs = sfexc.observe(exc)
+        if received is not None:
+            received[cid] = obs
+        return (raised or {}).get(obs) or sfexc.describe(exc)
     r = task.result()
     if isinstance(r, int) and not isinstance(r, bool):
         return f"R{r}"
@@ -150,7 +184,13 @@ def gate_backend():
             async def get(self, key, default=None):
                 r = await super().get(key, default=default)
                 if r is default and _exec_label():
-                    await _CURRENT[0].point(("after-get-miss", key))
+                    # park after the execution's FIRST lookup that missed (the decorator's "is it cached?"); later reads
+                    # of the same execution (soft re-reads the key after the body raised) are not scheduling points
+                    sched, tid = _CURRENT[0], TASK_ID.get()
+                    seen = sched.__dict__.setdefault("first_miss_seen", set())
+                    if tid not in seen:
+                        seen.add(tid)
+                        await sched.point(("after-get-miss", key))
                 return r
 
             async def set(self, key, value, *args, **kwargs):
@@ -174,9 +214,10 @@ def gates_of(variant: str, n: int, kind: str) -> int:
     return 1 + n + (1 if kind == "r" else 0)
 
 
-def build(variant: str, body):
-    """decorate `body` the way the variant says; returns (callable taking (k, arg, keyword_spelling), closer)"""
-    g, cache = _build(variant, body)
+def build(variant: str, body, ttl=TTL, inner=INNER_TTL):
+    """decorate `body` the way the variant says (ttl / early_ttl = soft_ttl in seconds); returns (callable taking
+    (k, arg, keyword_spelling), closer)"""
+    g, cache = _build(variant, body, ttl, inner)
     if variant not in TWO_PARAM:
         return (lambda k, arg, kw: g(k)), cache
     obj = variant.endswith("_obj")
@@ -187,7 +228,7 @@ def build(variant: str, body):
     return call, cache
 
 
-def _build(variant: str, body):
+def _build(variant: str, body, TTL, INNER_TTL):
     import cashews
     from cashews import Cache
 
@@ -240,7 +281,7 @@ def _build(variant: str, body):
     return g, cache
 
 
-def execute(case: dict, cancel_budget: int = 0) -> Run:
+def execute(case: dict, cancel_budget: int = 0, tick_budget: int = 0, tick_sizes=()) -> Run:
     run = Run()
     callers = [tuple(c) for c in case["callers"]]
     variant = case["variant"]
@@ -249,7 +290,7 @@ def execute(case: dict, cancel_budget: int = 0) -> Run:
     starts = {k: 0 for k in keys}
     run.maxrun = {k: 0 for k in keys}
     schedule = [tuple(e) if isinstance(e, list) else e for e in case.get("schedule", [])]
-    sched = SfSched(schedule, cancel_budget=cancel_budget)
+    sched = SfSched(schedule, cancel_budget=cancel_budget, tick_budget=tick_budget, tick_sizes=tick_sizes)
     sched.log = run.events.append
     _CURRENT[0] = sched
 
@@ -288,14 +329,23 @@ def execute(case: dict, cancel_budget: int = 0) -> Run:
                 return val
             if kind == "k":
                 return await end_cancelled(val)
-            raise EXC[val]()
+            try:
+                sfexc.raise_scripted(val, cid)
+            except Exception as exc:  # noqa: BLE001 - record what is about to leave the body, then let it go
+                obs = sfexc.observe(exc)
+                run.raised[obs] = f"E{val % sfexc.NSHAPES}.{cid}"
+                run.raised_obs[cid] = obs
+                raise
         finally:
             running[k] -= 1
             run.events.append(("end", cid, k, how, kind, val))
             TASK_ID.reset(tok)
 
+    ttl = ttl_ticks(case)
+    timed = "ttl" in case
+
     async def main():
-        f, cache = build(variant, body)
+        f, cache = build(variant, body, ttl // TICKS_PER_S, FAR_TTL if timed else INNER_TTL)
 
         def prog(cid, k, n, kind, val, arg=0):
             async def go():
@@ -305,14 +355,14 @@ def execute(case: dict, cancel_budget: int = 0) -> Run:
             return go
 
         def code(cid, t):
-            return outcome_code(t, cid in sched.cancelled_by_harness)
+            return outcome_code(t, cid in sched.cancelled_by_harness, run.raised, run.received_obs, cid)
 
         def snapshot():
             st = {}
             for cid, t in sched.callers.items():
                 st[cid] = "N" if ("c", cid) in sched.parked else code(cid, t)
             run.events.append(("quiet",))
-            return {"callers": st, "running": dict(running), "starts": dict(starts)}
+            return {"callers": st, "running": dict(running), "starts": dict(starts), "now": vtime.CLOCK.ticks()}
 
         programs = {c[0]: prog(*c) for c in callers}
         try:
@@ -335,7 +385,7 @@ def execute(case: dict, cancel_budget: int = 0) -> Run:
                     pass
 
     try:
-        vtime.run(main)
+        _vrun(main)
     finally:
         # cashews memoises key templates per decorated function (lru_cache in cashews/key.py), which keeps this run's
         # closures - and through them the scheduler - alive; drop the tasks so that asyncio.all_tasks() (walked by
